@@ -224,7 +224,7 @@ static Family sock_family(const std::string &tier)
   }
   f.req_menu = { 0, 4, 2, 18 };
   f.replies  = { RK_DATA, RK_SERVFAIL, RK_TC };
-  f.faults   = { FS_SOCKET, FS_SETSOCKOPT, FS_BIND, FS_CONNECT, FS_GETSOCKNAME, FS_SEND_REFUSED, FS_SEND_WOULDBLOCK, FS_SEND_SHORT, FS_RECV_RESET };
+  f.faults   = { FS_SOCKET, FS_SETSOCKOPT, FS_BIND, FS_CONNECT, FS_GETSOCKNAME, FS_SEND_REFUSED, FS_SEND_WOULDBLOCK, FS_SEND_SHORT, FS_RECV_RESET, FS_SEND_EINTR, FS_RECV_EINTR };
   f.setservers = { 1, 2 };
   f.evmask |= EVBIT(EV_TCP) | EVBIT(EV_WRITECB);
   f.default_oracles = "C10";
@@ -291,7 +291,7 @@ static Family retry_family(const std::string &tier)
   f.reqs     = life_reqs();
   f.req_menu = { 0, 18 };
   f.replies  = { RK_SERVFAIL, RK_REFUSED, RK_NOTIMP, RK_FORMERR_NOOPT, RK_TC, RK_BADCOOKIE, RK_DATA };
-  f.faults   = { FS_SOCKET, FS_CONNECT, FS_SEND_REFUSED, FS_RECV_RESET };
+  f.faults   = { FS_SOCKET, FS_CONNECT, FS_SEND_REFUSED, FS_RECV_RESET, FS_SEND_EINTR, FS_RECV_EINTR };
   f.setservers = { 2, 4 };
   f.evmask   = EVBIT(EV_REQ) | EVBIT(EV_REPLY) | EVBIT(EV_IO) | EVBIT(EV_TIMER) | EVBIT(EV_SETSERVERS) | EVBIT(EV_FAULT);
   f.policy_mask = (1u << ARES_VERIF_RAND_JITTER) | (1u << ARES_VERIF_RAND_ROTATE);
@@ -432,6 +432,8 @@ static Family cache_family(const std::string &tier)
   f.reqs.push_back(rq(6, "www.example.com", 1, 0, 0, AF_INET)); // 8 getaddrinfo A only
   f.reqs.push_back(rq(2, "www.example.com."));          // 9 trailing dot
   f.reqs.push_back(rq(0, "www.example.com"));           // 10 send_dnsrec, same as base
+  f.reqs.push_back(rq(2, "www.example.com", 65280));    // 11 a type the library has no name for
+  f.reqs.push_back(rq(2, "www.example.com", 65281));    // 12 another such type: must not share a cache entry with 11
   for (auto &c : f.cfgs) c.auto_io = true;
   f.req_repeat = true;
   if (tier == "quick") {
@@ -753,7 +755,18 @@ const Family *find_family(const std::string &name, const std::string &tier)
   else if (name == "retry-long") f = retry_long_family(tier);
   else if (name == "adversary") f = adversary_family(tier);
   else if (name == "cache") f = cache_family(tier);
-  else if (name == "retry-gai") {
+  else if (name == "cache-types") {
+    // key and rcode corner cases on one configuration: two query types the library has no name for (they must not share
+    // an entry), and an error rcode beyond the classic 0..5
+    f      = cache_family(tier);
+    f.name = "cache-types";
+    f.cfgs.resize(1);
+    f.req_menu = { 0, 2, 11, 12 };
+    f.replies  = { RK_DATA, RK_NOTAUTH, RK_SERVFAIL, RK_NXDOMAIN };
+    f.advances = { 1000 };
+    f.setservers = {};
+    f.evmask   = EVBIT(EV_REQ) | EVBIT(EV_REPLY) | EVBIT(EV_IO) | EVBIT(EV_ADVANCE);
+  } else if (name == "retry-gai") {
     // the retry family's oracles on a dual-family getaddrinfo (the lookup marks the second question 'no retries' once
     // the first is answered): two small configurations, one request
     f      = retry_family(tier);
